@@ -200,6 +200,12 @@ class Collocator:
         if processes is None:
             processes = 1
 
+        if not matches:
+            # Both filesets have files in this period but none of them overlap
+            # each other in time: there is nothing to collocate.
+            self._info("Found no matching files")
+            return
+
         # Make sure that there are never more processes than matches
         processes = min(processes, len(matches))
 
